@@ -40,7 +40,7 @@ def main():
     res = []
     try:
         for m in MUTANTS:
-            if a.k and a.k not in m["id"] and a.k not in m["prop"]:
+            if a.k and not any(k_ in m["id"] or k_ == m["prop"] for k_ in a.k.split(",")):
                 continue
             edits = m.get("edits") or [(m["file"], m["old"], m["new"])]
             ok_apply = True
@@ -93,7 +93,7 @@ def main():
             shutil.rmtree("/tmp/verif-selftest-out-%d" % os.getpid(), ignore_errors=True)
     bad = [r for r in res if r[1] != "ok"]
     print("selftest: %d mutants, %d as expected, %d not" % (len(res), len(res) - len(bad), len(bad)))
-    with open(os.path.join(H, "selftest", "last_result%s.json" % ("-" + a.k if a.k else "")), "w") as f:
+    with open(os.path.join(H, "selftest", "last_result%s.json" % ("-" + a.k.replace(",", "+")[:60] if a.k else "")), "w") as f:
         json.dump([{"id": r[0], "verdict": r[1], "detail": r[2]} for r in res], f, indent=1)
     return 1 if bad else 0
 
